@@ -6,6 +6,7 @@ package main
 
 import (
 	"fmt"
+	"os"
 	"go/types"
 
 	"golang.org/x/tools/go/ssa"
@@ -119,7 +120,8 @@ func (w *World) pickNext(cur *Thread) *Thread {
 	if len(rs) == 1 {
 		return rs[0]
 	}
-	if _, seq := w.ext["sequential"]; seq {
+	_, settling := w.ext["settling"]
+	if _, seq := w.ext["sequential"]; seq || settling {
 		for _, t := range rs {
 			if t == cur {
 				return t
@@ -135,6 +137,9 @@ func (w *World) pickNext(cur *Thread) *Thread {
 				break
 			}
 		}
+	}
+	if os.Getenv("GOSYM_SCHEDLOG") != "" && w.pathNo <= 3 && cur != nil {
+		fmt.Fprintf(os.Stderr, "SCHED path=%d thread=%d at %s runnable=%d\n", w.pathNo, cur.id, cur.waitWhat, len(rs))
 	}
 	i := w.chooseN(len(rs), "sched")
 	return rs[i]
